@@ -313,6 +313,8 @@ namespace bloch::runtime {
         Value call(FunctionDeclaration* fn, const std::vector<Value>& args);
         Value lookup(const std::string& name);
         Value stampStatic(Value v, const std::string& declaredClass) const;
+        bool constructorAccessible(const ConstructorDeclaration* decl,
+                                   const RuntimeClass* owner) const;
         void assign(const std::string& name, const Value& v);
 
         // Qubit bookkeeping
